@@ -1,0 +1,16 @@
+//go:build verif
+
+package cmd
+
+// VerifC12CacheIDs returns the sorted identifiers of the caches that the
+// components built by [VerifC13Build] have registered with the builder's cache
+// manager, which is the one the debug API clears caches through.
+func (w *VerifC13Wired) VerifC12CacheIDs() (ids []string) {
+	return w.b.cacheManager.IDs()
+}
+
+// VerifC12ClearCache clears the cache registered under id the way the debug API
+// does.
+func (w *VerifC13Wired) VerifC12ClearCache(id string) {
+	w.b.cacheManager.ClearByID(id)
+}
